@@ -36,6 +36,8 @@ type Exit struct {
 	Pos     token.Pos
 	Allowed string // for call-induced panics: nothing
 	Checked bool
+	Fr      *frame
+	Blk     *ssa.BasicBlock
 }
 
 type fnExec struct {
@@ -50,6 +52,7 @@ type fnExec struct {
 	boxed   map[string]TV
 	depth   int
 	nret    int
+	kwCache map[StrV]string
 	strLits map[string]StrV
 }
 
@@ -90,6 +93,10 @@ type loopInfo struct {
 }
 
 func (fx *fnExec) heapLeaf(st *State, leaf string, sort Sort) string {
+	if old, ok := fx.g.leafSorts[leaf]; ok && old != sort {
+		panic(fmt.Sprintf("leaf %s has sorts %s and %s", leaf, old, sort))
+	}
+	fx.g.leafSorts[leaf] = sort
 	if t, ok := st.heap[leaf]; ok {
 		return t
 	}
@@ -558,6 +565,18 @@ func (fr *frame) assumeTypeFacts(st *State, v Val, t types.Type) {
 		s.assert(and(app("<=", "0", x.Len), app("<=", "0", x.Off)))
 	case SliceV:
 		s.assert(and(app("<=", "0", x.Len), implies(x.Nil, eq(x.Len, "0"))))
+		// references held in a slice were allocated before now
+		if len(x.Elems) > 0 {
+			et := x.Elem.Underlying()
+			_, isPtr := et.(*types.Pointer)
+			_, isIf := et.(*types.Interface)
+			if isPtr || isIf {
+				arr := x.Elems[len(x.Elems)-1] // pointer: the only leaf; interface: .ref is the last leaf
+				k := sym(fmt.Sprintf("k!t%d", len(s.Items)))
+				s.assert(fmt.Sprintf("(forall ((%s Int)) (! (=> (and (<= 0 %s) (< %s %s)) (< (birth (select %s %s)) %s)) :pattern ((select %s %s))))", k, k, k, x.Len, arr, k, st.now, arr, k))
+				s.usesQuant = true
+			}
+		}
 	case PtrV:
 		s.assert(and(app("<=", "0", x.Addr), app("<", app("birth", x.Addr), st.now)))
 	case IfV:
@@ -810,7 +829,7 @@ func (fr *frame) execBlock(b *ssa.BasicBlock, st *State, in map[*ssa.BasicBlock]
 			for _, r := range x.Results {
 				rs = append(rs, fr.val(r))
 			}
-			ex := &Exit{Kind: "return", St: st, Results: rs, Pos: x.Pos()}
+			ex := &Exit{Kind: "return", St: st, Results: rs, Pos: x.Pos(), Fr: fr, Blk: b}
 			fr.exits = append(fr.exits, ex)
 			if fr.top {
 				fx.checkPost(ex)
@@ -866,10 +885,10 @@ func (fr *frame) addEdge(from, to *ssa.BasicBlock, st *State, cond string, in ma
 		}
 		if lc.Decreases != nil {
 			v := fx.evalInt(lc.Decreases.E, env)
-			s.oblig("variant", fmt.Sprintf("L%d", li.ordinal), append([]string{"C03"}, fr.c.Props...), cond,
+			s.oblig("variant", fmt.Sprintf("L%d", li.ordinal), fr.safetyTags(), cond,
 				and(app("<=", "0", li.variant0), app("<", v, li.variant0)), pos, lc.Decreases.Src)
 		} else {
-			s.oblig("variant", fmt.Sprintf("L%d", li.ordinal), append([]string{"C03"}, fr.c.Props...), cond, "false", pos, "loop has no decreases clause")
+			s.oblig("variant", fmt.Sprintf("L%d", li.ordinal), fr.safetyTags(), cond, "false", pos, "loop has no decreases clause")
 		}
 		for phi, v := range saved {
 			fr.vals[phi] = v
